@@ -71,7 +71,54 @@ partial def ptyStr : Ty → String
 /-- Go's float64 → float32 → float64 on bits (trusted: Lean's runtime uses the same IEEE conversion) -/
 def r32 (b : Nat) : Nat := (Float.ofBits b.toUInt64).toFloat32.toFloat.toBits.toNat
 
+/-- attribute name of a field: the tag `puppet:"name=>'x'"` or the Go name with its first letter in lower case -/
+def attrName (goName : String) (tag : Option String) : Option String :=
+  match tag with
+  | none => match goName.toList with
+    | c :: r => some (String.ofList (c.toLower :: r))
+    | [] => none
+  | some t =>
+    let pre := "puppet:\"name=>'"
+    let suf := "'\""
+    if t.startsWith pre && t.endsWith suf && t.length > pre.length + suf.length then
+      some (String.ofList ((t.toList.drop pre.length).take (t.length - pre.length - suf.length)))
+    else none
+
+def fieldOf : Sexp → Option Field
+  | .list [.atom n, t] => do let ty ← tyOf t; let a ← attrName n none; pure ⟨a, ty⟩
+  | .list [.atom n, t, tag] => do let ty ← tyOf t; let tg ← tag.str?; let a ← attrName n (some tg); pure ⟨a, ty⟩
+  | _ => none
+
+def zipVals : List Field → List Sexp → Option (List (Field × GoVal))
+  | [], [] => some []
+  | f :: fs, v :: vs => do let gv ← valOf f.ty v; let r ← zipVals fs vs; pure ((f, gv) :: r)
+  | _, _ => none
+
+def variantStr (name : String) (orig : List GoVal) : Option (List GoVal) → String
+  | some back => s!" | {name}=ok back={paren ("st" :: back.map goStr)} eq={boolStr ((back.map goStr) == (orig.map goStr))}"
+  | none => s!" | {name}=reported PCORE_ILLEGAL_ARGUMENTS"
+
 def exec : List Sexp → String
+  | [.atom "obj", .list (.atom "struct" :: fsx), .list (.atom "st" :: vsx)] =>
+    match fsx.mapM fieldOf with
+    | none => "bad-op"
+    | some fs =>
+      match zipVals fs vsx with
+      | none => "bad-op"
+      | some fvs =>
+        if fs.isEmpty || !(fvs.all fun fv => flatField fv.1 && hasType fv.1.ty fv.2) then "bad-op" else
+        let ih := initHash fvs
+        let attrs := attrOrder fvs
+        let orig := fvs.map (·.2)
+        let posSkip := match attrs with
+          | [fv] => (match fieldVal fv with | .hsh _ => true | _ => false)
+          | _ => false
+        let namedSkip := match attrs with
+          | fv :: _ => inst (typeOf fv.1.ty) (.hsh ih)
+          | [] => false
+        valStr (.hsh ih)
+          ++ (if posSkip then "" else variantStr "pos" orig (newPos r32 fvs))
+          ++ (if namedSkip then "" else variantStr "named" orig (newNamed r32 fs ih))
   | [.atom "refl", t, v] =>
     match tyOf t with
     | none => "bad-op"
